@@ -38,9 +38,11 @@ type c12Result struct {
 }
 
 var c12Classes = []string{"nil-payload", "zero-index", "zero-id", "empty-group", "zero-member", "unset-group", "bad-prefix", "bad-label",
-	"label-ge-2^32", "empty-ni", "unknown-ni", "invalid-utf8-ni", "unknown-group-ni", "other-op-type", "undefined-enum", "no-entry",
+	"label-ge-2^32", "empty-ni", "unknown-ni", "invalid-utf8-ni", "unknown-group-ni", "other-op-type", "undefined-enum", "undefined-enum-in-list", "no-entry",
 	"delete-bad-prefix", "delete-bad-label", "delete-zero-id", "delete-zero-index", "delete-no-entry", "duplicate-members", "boundary-ints",
-	"replace-missing", "get-empty-name", "get-unknown-ni", "get-bad-aft", "flush-no-ni", "flush-unknown-ni"}
+	"replace-missing", "get-empty-name", "get-unknown-ni", "get-bad-aft", "flush-no-ni", "flush-unknown-ni", "flush-empty-name"}
+
+var badListSeq int
 
 func malformedOp(r *drv.Rng, class string, id uint64, el *drv.U128) (drv.OpSpec, *drv.SStep) {
 	o := drv.OpSpec{ID: id, NI: 1, Kind: "ADD", Elec: el}
@@ -107,6 +109,9 @@ func malformedOp(r *drv.Rng, class string, id uint64, el *drv.U128) (drv.OpSpec,
 	case "undefined-enum":
 		o.T = drv.Pick(r, "nh", "v4", "v6")
 		o.Key, o.NHG, o.Bad = 2, 1, true
+	case "undefined-enum-in-list":
+		badListSeq++
+		o.T, o.Key, o.BadList = "nh", 2, 1+badListSeq%5 // every position in turn
 	case "no-entry":
 		o.T = "none"
 	case "delete-bad-prefix":
@@ -139,6 +144,8 @@ func malformedOp(r *drv.Rng, class string, id uint64, el *drv.U128) (drv.OpSpec,
 		return o, &drv.SStep{K: "get", Get: &drv.GetSpec{NI: "all", AFT: "OTHER"}}
 	case "flush-no-ni":
 		return o, &drv.SStep{K: "flush", Flush: &drv.FlushSpec{Elec: "override", NI: "none"}}
+	case "flush-empty-name":
+		return o, &drv.SStep{K: "flush", Flush: &drv.FlushSpec{Elec: "override", NI: "name", Name: 0}}
 	case "flush-unknown-ni":
 		return o, &drv.SStep{K: "flush", Flush: &drv.FlushSpec{Elec: "override", NI: "name", Name: 4}}
 	}
